@@ -16,7 +16,15 @@
 
    An installed entry takes precedence over a library entry of the same name (a Go map has one value per key);
    the loop functions index / isFirst / isLast live in the unexported map loopFuncs, which evalFunc consults first.
-   Every other node -- and a print without any installed directive -- is [walk_body] itself.  Definitions only. *)
+   Every other node -- and a print without any installed directive -- is [walk_body] itself.
+
+   The MESSAGE BUNDLE (Renderer.WithMessages): Model/Interp.v renders without one.  Here evalMsg with a bundle that
+   has a translation of the message goes through evalMsgParts: raw text written, a placeholder looked up in the
+   {msg} node by name and its body walked, a plural part: the {plural} node of that variable, its value evaluated,
+   PluralCase, the parts of that form.  The bundle is [c_msgs cf] ([msg_bundle]: parts as nodes -- NRawText,
+   NIdent name = PlaceholderPart, NMsgPlural var _ forms _ = PluralPart with NMsgPluralCase _ _ parts per form;
+   PluralCase as a table on the integers with a default).  A message id 0 is never looked up (the synthetic node
+   of the untranslated plural path carries it).  Definitions only. *)
 From Soy Require Import Model.Bytes Model.Num Model.Values Model.Outcome Model.Ast
   Model.Escape Model.Directives Model.Print Generated.Tables Model.Interp.
 Open Scope N_scope.
@@ -98,6 +106,85 @@ Definition print_x (arg : node) (dirs : list node) : M value :=
       _ <-- write_all ws ;;; ret VUndef
   end.
 
+(* ---- evalMsg with a translation ---- *)
+Fixpoint first_some {A} (l : list (option A)) : option A :=
+  match l with [] => None | Some x :: _ => Some x | None :: r => first_some r end.
+
+(* MsgNode.Placeholder(name): the body of the placeholder node with that name (the Go code searches breadth
+   first, this is depth first: placeholders of one message with the same name have the same content) *)
+Fixpoint find_placeholder (name : bstr) (n : node) {struct n} : option node :=
+  match n with
+  | NMsgPlaceholder _ nm body => if bstr_eqb nm name then Some body else None
+  | NMsgPlural _ _ _ cases dflt =>
+      first_some (map (find_placeholder name) cases ++ map (find_placeholder name) dflt)
+  | NMsgPluralCase _ _ body => first_some (map (find_placeholder name) body)
+  | _ => None
+  end.
+Definition msg_placeholder (name : bstr) (body : list node) : option node :=
+  first_some (map (find_placeholder name) body).
+
+(* findPluralNode: a top-level {plural} of the message with that variable name; its value expression *)
+Fixpoint find_plural_value (varname : bstr) (body : list node) : option node :=
+  match body with
+  | [] => None
+  | NMsgPlural _ vn pv _ _ :: r => if bstr_eqb vn varname then Some pv else find_plural_value varname r
+  | _ :: r => find_plural_value varname r
+  end.
+
+Fixpoint assoc_zn (k : Z) (l : list (Z * N)) : option N :=
+  match l with [] => None | (k', v) :: r => if (k =? k')%Z then Some v else assoc_zn k r end.
+Definition plural_case (mb : msg_bundle) (i : Z) : N :=
+  match assoc_zn i (mb_plural mb) with Some k => k | None => mb_plural_default mb end.
+
+(* evalMsgParts, one part *)
+Fixpoint msg_part (mb : msg_bundle) (body : list node) (part : node) {struct part} : M unit :=
+  match part with
+  | NRawText _ text => write text
+  | NIdent _ name =>
+      match msg_placeholder name body with
+      | Some ph => _ <-- w ph ;;; ret tt
+      | None => fail e_placeholder
+      end
+  | NMsgPlural _ varname _ forms _ =>
+      match find_plural_value varname body with
+      | None => fail e_placeholder
+      | Some pv =>
+          v <-- eval w pv ;;;
+          match v with
+          | VInt i =>
+              let runs := map (fun c => match c with
+                                        | NMsgPluralCase _ _ parts =>
+                                            Some ((fix go (l : list node) : M unit :=
+                                                     match l with
+                                                     | [] => ret tt
+                                                     | x :: r => _ <-- msg_part mb body x ;;; go r
+                                                     end) parts)
+                                        | _ => None
+                                        end) forms in
+              match nth_error runs (N.to_nat (plural_case mb i)) with
+              | Some (Some m) => m
+              | Some None => fail e_unknown
+              | None => fail e_plural          (* plural case index out of bounds *)
+              end
+          | _ => fail e_plural
+          end
+      end
+  | _ => ret tt                                (* the type switch over parts has no default *)
+  end.
+Fixpoint msg_parts (mb : msg_bundle) (body : list node) (parts : list node) : M unit :=
+  match parts with
+  | [] => ret tt
+  | x :: r => _ <-- msg_part mb body x ;;; msg_parts mb body r
+  end.
+
+(* the translation of a message, if evalMsg takes that path *)
+Definition msg_translation (id : N) : option (msg_bundle * list node) :=
+  if id =? 0 then None
+  else match c_msgs cf with
+       | Some mb => match assoc id (mb_msgs mb) with Some parts => Some (mb, parts) | None => None end
+       | None => None
+       end.
+
 (* evalFunc on an installed function: arity, the arguments in order, Apply; a nil result is Null (the Go code);
    an allocated result gets a fresh identity *)
 Definition call_func_x (ar : list N) (f : list value -> outcome fres) (args : list node) : M value :=
@@ -123,6 +210,11 @@ Definition walk_body_x (n : node) : M value :=
       if print_uses_installed dirs
       then _ <-- modify (fun st => set_cur st p) ;;; print_x arg dirs
       else walk_body cf w n
+  | NMsg p id _ _ body =>
+      match msg_translation id with
+      | Some (mb, parts) => _ <-- modify (fun st => set_cur st p) ;;; _ <-- msg_parts mb body parts ;;; ret VUndef
+      | None => walk_body cf w n
+      end
   | _ => walk_body cf w n
   end.
 End BodyX.
